@@ -6,7 +6,10 @@ use crate::valve::{addr, first_line, timeouts};
 use gamedig::protocols::quake;
 use serde_json::{json, Value};
 
-fn text_of(v: &Value) -> String { v.as_array().map(|a| a.iter().map(|c| c.as_str().unwrap_or("")).collect()).unwrap_or_default() }
+/// ("#" in the model stands for a two-byte character)
+fn text_of(v: &Value) -> String {
+    v.as_array().map(|a| a.iter().map(|c| c.as_str().unwrap_or("")).collect::<String>()).unwrap_or_default().replace('#', "\u{e9}")
+}
 
 pub fn replay(lines: &[Value], rep: &mut Report) {
     for c in lines {
